@@ -403,6 +403,19 @@ func (d *Driver) CloseAndWait() bool {
 	return true
 }
 
+// WatchersDone waits until every exchange watcher of this driver has ended
+// (exchange closed, or ErrClosed received after the client got closed).
+func (d *Driver) WatchersDone(timeout time.Duration) bool {
+	done := make(chan struct{})
+	go func() { d.wg.Wait(); close(done) }()
+	select {
+	case <-done:
+		return true
+	case <-time.After(timeout):
+		return false
+	}
+}
+
 // AllClosed tells whether every accepted publish had its exchange closed;
 // World.Mu must be held (use inside WaitUntil).
 func (d *Driver) AllClosed() bool { return d.Open == 0 }
